@@ -26,7 +26,7 @@ LEVEL_TEXT = ('Held on every generated history of runs over one pool: each step 
 LEVEL_NOTE = ('trusts: the twin model built from the same spec+edits; counters are exact only under the lazy native client with '
               'max_parallel_batches=1 (used for counter checks); stale stores are dropped by the history as a user must')
 RULE = ('cases = inference-model spec x stored set (non-empty subset of simulator+descendants, optionally plus all parameters) x OutputPool | '
-        'ArrayPool x batch size x seed x history of 2-6 steps (rerun same, rerun needing more batches, remove a store, replace a summary, replace '
+        'ArrayPool x batch size x seed x history of 2-6 steps (rerun same, rerun needing more batches, remove a store, add a store, replace a summary, replace '
         'the distance, close+open / pickle the pool, flush-without-save then reopen the earlier save) each a Rejection run, on a fresh or on the same sampler object (n_sim | quantile | threshold); distinct = hash of the case; non-trivial = '
         'some step ran while the pool already held >= 1 batch of >= 1 requested stored node')
 ASSUMPTIONS = ['n_sim >= n_samples; parameter stores are all-or-none; stores of edited nodes and their descendants are dropped before the next run']
@@ -34,7 +34,7 @@ CONFIG = {
     'quick': {'shards': 16, 'cases': 30, 'timeout': 900, 'floor': 150},
     'thorough': {'shards': 32, 'cases': 1080, 'timeout': 5400, 'floor': 10800},
 }
-REQUIRED = ['steps_reusing_sampler_object', 'crash_reopen_steps', 'steps', 'reuse_steps', 'results_compared', 'call_counters_checked', 'pool_batches_compared', 'context_refusals_checked',
+REQUIRED = ['addstore_steps', 'steps_reusing_sampler_object', 'crash_reopen_steps', 'steps', 'reuse_steps', 'results_compared', 'call_counters_checked', 'pool_batches_compared', 'context_refusals_checked',
             'pool_memory', 'pool_disk', 'edit_steps', 'scheduled_steps', 'steps_loading_from_pool']
 
 KNOWN_KEY = 'stochastic-node-rerun-after-pool-loaded-prior'
@@ -64,7 +64,7 @@ def gen_cases(ctx):
         # hostile motif on disk: save, run on, flush without saving again, reopen the earlier save, need more batches
         motif = ['fill', 'reopen', 'more', 'crash_reopen', 'more'] if (disk and rng.random() < 0.6) else None
         for si in range(int(rng.integers(2, 7)) if not motif else int(rng.integers(5, 8))):
-            acts = ['same', 'more', 'more', 'rmstore', 'rmstore', 'edit_summary', 'edit_disc', 'reopen'] + (['crash_reopen'] * 2 if disk else [])
+            acts = ['same', 'more', 'more', 'rmstore', 'rmstore', 'addstore', 'addstore', 'edit_summary', 'edit_disc', 'reopen'] + (['crash_reopen'] * 2 if disk else [])
             act = str(rng.choice(acts)) if si else 'fill'
             if motif and si < len(motif):
                 act = motif[si]
@@ -89,7 +89,7 @@ def gen_cases(ctx):
                 step['scale'] = float(rng.choice([0.5, 2.0, 3.0]))
             if act == 'edit_disc':
                 step['variant'] = int(rng.integers(1, 4))
-            if act == 'rmstore':
+            if act in ('rmstore', 'addstore'):
                 step['pick'] = float(rng.random())
             steps.append(step)
         made += 1
@@ -205,6 +205,14 @@ def run_case(ctx, case):
                         for x in g:
                             _drop(pool, x)
                             held.pop(x, None)
+            if act == 'addstore':
+                # start storing one more node of the stated form on a pool that already holds batches of the others
+                cand = [x for x in ['S'] + summ + ['d'] if x not in pool.stores]
+                if cand:
+                    x = cand[int(step['pick'] * len(cand)) % len(cand)]
+                    pool.add_store(x)
+                    held[x] = set()
+                    ctx.event('addstore_steps')
             if act == 'edit_summary':
                 version['summ'][step['which']] = step['scale']
                 m[step['which']].become(elfi.Summary(_summary_fn(spec, step['which'], step['scale']), m['S'], model=m))
